@@ -28,8 +28,6 @@ U == 24       \* position units per cell
 
 PtOf(s) == <<s[1], s[2], s[3]>>
 SamplePts(samples) == {PtOf(samples[i]) : i \in DOMAIN samples}
-ValFn(samples) ==
-    [p \in SamplePts(samples) |-> samples[CHOOSE i \in DOMAIN samples : PtOf(samples[i]) = p][4]]
 InsidePts(samples, cut) == {PtOf(samples[i]) : i \in {j \in DOMAIN samples : samples[j][4] < cut}}
 
 Bits == {0, 1}
@@ -51,10 +49,13 @@ Canon(t) ==
 CanonSet(G) == {Canon(G[i]) : i \in DOMAIN G}
 
 Ref(samples, dflt, cut) ==
-    LET vf == ValFn(samples)
-        dom == DOMAIN vf
+    LET s4 == {samples[i] : i \in DOMAIN samples}       \* membership = binary search
         inside == InsidePts(samples, cut)
-        val(p) == IF p \in dom THEN vf[p] ELSE dflt
+        val(p) == IF <<p[1], p[2], p[3], -4>> \in s4 THEN -4
+                  ELSE IF <<p[1], p[2], p[3], -2>> \in s4 THEN -2
+                  ELSE IF <<p[1], p[2], p[3], 2>> \in s4 THEN 2
+                  ELSE IF <<p[1], p[2], p[3], 4>> \in s4 THEN 4
+                  ELSE dflt
         cellTris(q) ==
             LET cv == <<val(Corner(q, 0)), val(Corner(q, 1)), val(Corner(q, 2)), val(Corner(q, 3)),
                        val(Corner(q, 4)), val(Corner(q, 5)), val(Corner(q, 6)), val(Corner(q, 7))>>
@@ -67,7 +68,8 @@ Ref(samples, dflt, cut) ==
                         \* 24 t; exact by the value alphabet (checked by FieldOK)
                         t24 == (U * (cut - va)) \div (vb - va)
                     IN VAdd(VScale(U, a), VScale(t24, VSub(CP(EB(e)), CP(EA(e)))))
-            IN {Canon(<<vert(Tris(kk)[i][1]), vert(Tris(kk)[i][2]), vert(Tris(kk)[i][3])>>) : i \in 1..NT(kk)}
+                tt == TrisT[kk]
+            IN {Canon(<<vert(tt[i][1]), vert(tt[i][2]), vert(tt[i][3])>>) : i \in DOMAIN tt}
     IN UNION {cellTris(q) : q \in Cells(inside)}
 
 \* the alphabet assumption that makes 24 t integral, no ties, positive default, budget
